@@ -448,6 +448,31 @@ Proof.
   eexists _, _. split; [vm_compute; reflexivity|]. repeat (split; [vm_compute; reflexivity|]). vm_compute. reflexivity.
 Qed.
 
+(* the check trivia_tidy is needed (for token lists the lexer never produces): with a comment token whose code ends in a line
+   feed inside the else part of a one-line if - `do / if (a) x=1 else --c<LF>y=2 / end`, the newline token after `2` is the fence -
+   `y` (token 15, reference depth 1) begins a line of the output at 2 x 2 spaces: the writer's counter in the else part *)
+Definition C10_untidy_comment_tokens : list token :=
+  [mkTok CKeyword 0 "do"%bs "do"%bs; mkTok CNewline 0 [10] [10];
+   mkTok CKeyword 0 "if"%bs "if"%bs; mkTok CSpace 0 [32] [32]; mkTok CSymbol 0 [40] [40]; mkTok CName 0 [97] [97]; mkTok CSymbol 0 [41] [41];
+   mkTok CSpace 0 [32] [32]; mkTok CName 0 [120] [120]; mkTok CSymbol 0 [61] [61]; mkTok CNumber 0 [49] [49]; mkTok CSpace 0 [32] [32];
+   mkTok CKeyword 0 "else"%bs "else"%bs; mkTok CSpace 0 [32] [32]; mkTok CComment 0 [45; 45; 99; 10] [45; 45; 99; 10];
+   mkTok CName 0 [121] [121]; mkTok CSymbol 0 [61] [61]; mkTok CNumber 0 [50] [50]; mkTok CNewline 0 [10] [10];
+   mkTok CKeyword 0 "end"%bs "end"%bs; mkTok CNewline 0 [10] [10]].
+
+Example C10_indent_untidy_comment_refuted :
+  exists root e, lua_parse C10_untidy_comment_tokens = Ok (root, e) /\ consumed C10_untidy_comment_tokens e = true /\
+    writable C10_untidy_comment_tokens root = true /\ codes_tidy C10_untidy_comment_tokens = true /\
+    trivia_tidy C10_untidy_comment_tokens = false /\ no_trailing_sep root = true /\
+    token_depth C10_untidy_comment_tokens 15 = 1 /\
+    writer_text (fmt_spaces 2) C10_untidy_comment_tokens (view root) = Ok ("do
+  if (a) x=1 else  --c
+    y=2
+end
+"%bs : list Z).
+Proof.
+  eexists _, _. split; [vm_compute; reflexivity|]. repeat (split; [vm_compute; reflexivity|]). vm_compute. reflexivity.
+Qed.
+
 (* the first line: a prefix of luafmt's output (up to a chunk boundary) that consists of blanks only and holds no line feed is
    empty - whatever begins the first line of the file (a code token or a comment) sits at column 0
    (hypotheses as C10_shape; non-vacuity: C10_program_nonvacuous) *)
@@ -458,3 +483,65 @@ Theorem C10_first_line : forall ts w root e,
       chunks_text (fmt_spaces w) A = [].
 Proof. exact program_first_line. Qed.
 Print Assumptions C10_first_line.
+
+From PV Require Import Spec.FmtShape Spec.ReindentSpec Proofs.AstWriterReindent.
+
+(* ---------- luafmt's output as a function of the token list; re-indentation invariance of whole programs ----------
+   Spec/ReindentSpec.v (token level, written from the property text):
+     segs ts               the token list cut at its significant tokens (the run before the first one, then each with the run after it)
+     ref_fmt G ts          every significant token with its own code; the run in front of a token rewritten by G knowing only whether
+                           it begins the file, whether it ends the file, and the number of blocks and brackets open at the token
+                           (depth rules of Spec/TokenDepth.v folded along the significant tokens; 0 for the run that ends the file)
+     layout_equiv R        the same significant tokens in the same order, the runs at corresponding places related by R at_start at_end
+   Instances (Proofs/AstWriterReindent.v): gap_fmt w = the re.sub pipeline fmt_run; run_norm_rel = the relation of
+   C10_run_depends_on_norm / C10_run_depends_on_norm_end on the joined codes of the runs (equal after canon_ws and the removal of the
+   blanks at the edges of lines; comments are part of the runs); reindent_equiv = layout_equiv run_norm_rel.
+   One more computable check on the token list: gaps_tidy - a run without a newline token holds no CR / LF byte at all (no
+   multi-line block comment in the middle of a line): the text of such a run does not depend on the nesting counter, which inside a
+   one-line if is not the reference depth. *)
+
+(* inside the writer's domain luafmt writes exactly ref_fmt (gap_fmt w) ts *)
+Theorem C10_output_form : forall ts w root e,
+  lua_parse ts = Ok (root, e) -> consumed ts e = true -> writable ts root = true ->
+  no_trailing_sep root = true -> gaps_tidy ts = true ->
+  writer_text (fmt_spaces w) ts (view root) = Ok (ref_fmt (gap_fmt w) ts).
+Proof. exact program_ref_fmt. Qed.
+Print Assumptions C10_output_form.
+
+(* the reference formatter does not see line-edge white space *)
+Theorem C10_ref_fmt_reindent : forall w ts1 ts2, reindent_equiv ts1 ts2 -> ref_fmt (gap_fmt w) ts1 = ref_fmt (gap_fmt w) ts2.
+Proof. exact ref_fmt_reindent. Qed.
+Print Assumptions C10_ref_fmt_reindent.
+
+(* C10's re-indentation clause for whole programs: two token lists inside the domain that are the same program with the same line
+   breaks, differing only in white space at the edges of lines, are formatted to the same text *)
+Theorem C10_reindent_invariant : forall w ts1 ts2 root1 e1 root2 e2,
+  lua_parse ts1 = Ok (root1, e1) -> consumed ts1 e1 = true -> writable ts1 root1 = true ->
+  no_trailing_sep root1 = true -> gaps_tidy ts1 = true ->
+  lua_parse ts2 = Ok (root2, e2) -> consumed ts2 e2 = true -> writable ts2 root2 = true ->
+  no_trailing_sep root2 = true -> gaps_tidy ts2 = true ->
+  reindent_equiv ts1 ts2 ->
+  writer_text (fmt_spaces w) ts1 (view root1) = writer_text (fmt_spaces w) ts2 (view root2).
+Proof. exact program_reindent. Qed.
+Print Assumptions C10_reindent_invariant.
+
+(* non-vacuity: the two layouts of C10_indent_short_else_nonvacuous (nested program with a one-line if with else, a comment line, a
+   trailing comment, a run of blank lines some with blanks, tabs, trailing blanks) are different token lists, related by
+   reindent_equiv, both inside the domain, and formatted to the same text; their source texts are related by the byte-level reference
+   relation same_modulo_line_edges of Spec/FmtShape.v (which the monitor evaluates on real luafmt runs) *)
+Example C10_reindent_nonvacuous :
+  C10_layout1 <> C10_layout2 /\ reindent_equiv C10_layout1 C10_layout2 /\
+  same_modulo_line_edges (flat_map tcode C10_layout1) (flat_map tcode C10_layout2) = Some true /\
+  gaps_tidy C10_layout1 = true /\ gaps_tidy C10_layout2 = true /\
+  exists root1 e1 root2 e2,
+    lua_parse C10_layout1 = Ok (root1, e1) /\ consumed C10_layout1 e1 = true /\ writable C10_layout1 root1 = true /\
+    no_trailing_sep root1 = true /\
+    lua_parse C10_layout2 = Ok (root2, e2) /\ consumed C10_layout2 e2 = true /\ writable C10_layout2 root2 = true /\
+    no_trailing_sep root2 = true /\
+    writer_text (fmt_spaces 2) C10_layout1 (view root1) = writer_text (fmt_spaces 2) C10_layout2 (view root2) /\
+    writer_text (fmt_spaces 2) C10_layout1 (view root1) = Ok (ref_fmt (gap_fmt 2) C10_layout1).
+Proof.
+  split; [discriminate|]. split; [vm_compute; repeat split; reflexivity|]. split; [vm_compute; reflexivity|].
+  split; [vm_compute; reflexivity|]. split; [vm_compute; reflexivity|].
+  eexists _, _, _, _. split; [vm_compute; reflexivity|]. repeat (split; [vm_compute; reflexivity|]). vm_compute. reflexivity.
+Qed.
